@@ -176,7 +176,9 @@ def oracle_loc_inside(c):
     """A descriptor handed back by an operation on a Root points into the root's tree."""
     for t in c.extra.get("loc", []):
         if t and t[0] == "outside":
-            where = unhex(t[1]).decode("latin1") if len(t) > 1 else "?"
+            where = unhex(t[1]).decode("latin1") if len(t) > 1 else ""
+            if not where:
+                continue    # the harness could not read where the descriptor points (no /proc in this environment)
             return f"the operation returned a descriptor of an object outside the root's tree: {where}"
     return None
 
@@ -514,6 +516,29 @@ def check_C10(v, tier, seed):
     rf = Run("C10-reopen-fault", ["reopen-fault", "--seed", str(seed)])
     nrf = reopen_fault_cases(v, rf, concrete)
     runs.append(rf)
+    # an environment in which the diagnostic reads of every error value fail by themselves: no /proc in the process's mount
+    # namespace (a tmpfs over it).  Every natural failure of every operation (ENOENT, ELOOP, ...) builds its error value
+    # there; the operations must behave as with /proc (kernel oracle), and the process must survive (finding F26)
+    noproc = {"cases": 0}
+    try:
+        np = Run("C10-noproc", ["root", "--ops", "all", "--seed", str(seed + 911), "--n", str(sizes(tier, 150, 1500))],
+                 prefix=["unshare", "-m", "sh", "-c", 'mount -t tmpfs tmpfs /proc && exec "$@"', "sh"])
+        noproc["cases"] = len(np.cases)
+        for c in np.cases:
+            msg = oracle_kernel_equiv(c) if c.op and c.op[0] in ("resolve", "open_subpath", "readlink") else None
+            if not msg and c.res[:1] == ["panic"]:
+                msg = "the operation panicked"
+            if msg:
+                facts = case_facts(c)
+                facts.update({"kind": "oracle", "oracle": msg, "env": "no /proc"})
+                v.fail(facts, case_replay(c, "without /proc in the mount namespace: " + msg))
+                concrete.add((np.name, c.id))
+        runs.append(np)
+    except BuildError as e:
+        v.fail({"kind": "oracle", "oracle": "the process died in a mount namespace without /proc", "env": "no /proc"},
+               {"why": "with a tmpfs mounted over /proc (so that the diagnostic /proc reads of every error value fail) the harness "
+                       "process running ordinary operations died: " + str(e)[-600:],
+                "how": "unshare -m sh -c 'mount -t tmpfs tmpfs /proc && verif-harness root --ops all --seed %d --n 150'" % (seed + 911)})
     broken = generic_tie(v, runs, concrete)
 
     def key(c):
@@ -530,6 +555,7 @@ def check_C10(v, tier, seed):
     cov["tie_mismatches"] = broken
     cov["aftermath"] = aftermath
     cov["reopen_under_single_faults"] = nrf
+    cov["without_proc"] = noproc
     kinds, errnos, failed_calls = {}, {}, {}
     for r in runs:
         for c in r.cases:
